@@ -142,6 +142,10 @@ def run_all(chk, fsets, tier):
         chk.rule("R3.position", floor=50 if i == 0 else 0,
                  doc="E4: ghost pos = W*word_pos - bits_in_buffer (unbuffered: bit_index): read/skip advance by exactly n, peek by 0, read_unary by result+1, on every successful path")
         re_.run_reader_effects(chk, F, fs, "R3.position", groups=(None,))
+        import rules_bits
+        chk.rule("R2.clean", floor=80 if i == 0 else 0,
+                 doc="bit-range domain: after every successful refill/peek/skip/read/read_unary the buffer has no set bit outside its valid window (BE: low 2W-bits positions, LE: positions >= bits), and every OR that builds the buffer combines disjoint ranges")
+        rules_bits.run_reader_cleanliness(chk, F, fs, "R2.clean", groups=(None,))
     chk.trust("rustc MIR construction and the mirx exporter")
     chk.trust("contract table sa/contracts.py; ghost updates of sa/rules_effects.py (read_word advances the backend by one word)")
     chk.trust("exact rational simplex sa/lp.py")
